@@ -198,6 +198,7 @@ def run(case):
     skw = dict(mkw)
     routes = [('py', False, False, False), ('c', True, False, False)]
     if case.get('par_routes'):
+        res.cls('matrix-swap:mp+omp-engines')
         routes += [('py-mp', False, True, True), ('c-mp', True, True, True), ('c-omp', True, True, False)]
     for name, use_c, par, mp in routes:
         vals = []
